@@ -214,7 +214,15 @@ def finish(pid, out, tier, seed, t0, level, spec):
         'violations': len(out.violations),
     }
     if level == 'model_checking':
-        ev['coverage'].update(spec.get('mc_coverage', {}))
+        ok = [b for b in out.bounded if b.get('result') == 'SUCCESSFUL']
+        ev['coverage'].update({
+            'evaluations': sum(int(b.get('checks') or 0) for b in out.bounded),
+            'distinct_nontrivial': len(ok),
+            'rule': 'evaluations = CBMC property checks decided over all harnesses of this run (each check is decided for ALL inputs within the stated bound, symbolically); '
+                    'distinct_nontrivial = number of distinct harnesses that verified AND whose kani::cover! reachability guards were satisfied',
+            'exhaustive': True,
+            'explanation': 'bounded symbolic model checking: exhaustive within each harness bound, nothing beyond it',
+        })
     os.makedirs(os.path.join(ROOT, 'evidence'), exist_ok=True)
     with open(os.path.join(ROOT, 'evidence', f'{pid}.json'), 'w') as f:
         json.dump(ev, f, indent=1)
